@@ -728,25 +728,34 @@ fn gen_case(rng: &mut Rng, prop: &str, tier: &str) -> Case {
         // block boundary (k = count), with one hit left in the buffer (count - 1), or one hit into
         // the next block (count + 1); consumed hits often score above everything that remains
         let rows = (l + C - 1) / C;
+        let mut special: Vec<usize> = vec![0];
         if rows > 0 && nq <= 1500 {
             for nb in 1..=2usize {
                 let cnt = scores.iter().enumerate().filter(|(i, &s)| s >= t && i % rows < nb * b).count();
                 if cnt > 0 && rng.chance(2, 3) {
-                    ks.push(cnt);
+                    special.push(cnt);
                     if rng.chance(1, 2) {
-                        ks.push(cnt - 1);
+                        special.push(cnt - 1);
                     }
                     if rng.chance(1, 3) {
-                        ks.push((cnt + 1).min(cap));
+                        special.push((cnt + 1).min(cap));
                     }
                 }
             }
         }
+        // at most 6 prefixes per case: the special ones first, then the random ones
+        for k in ks.clone() {
+            if special.len() >= 6 {
+                break;
+            }
+            if !special.contains(&k) {
+                special.push(k);
+            }
+        }
+        ks = special;
         ks.sort();
         ks.dedup();
-        if ks.len() > 8 {
-            ks.truncate(8);
-        }
+        ks.truncate(6);
     }
     // setters called between calls of next()
     let sw = if l <= 3000 && rng.chance(1, 14) {
